@@ -15,7 +15,8 @@ CHECKS = {
     "C16": {
         "text": ("Deductive, restricted to the framework helpers that every hardening codemod uses to edit a call's arguments: "
                  "LibcstResultTransformer.replace_args (loop invariants: no argument is dropped; every argument whose keyword is not named in "
-                 "the edit is kept, identical and in place; additions only after the original arguments) and _match_with_existing_arg."),
+                 "the edit is kept, identical and in place; additions only after the original arguments), _match_with_existing_arg, and https-connection's count_positional_args (leading run of "
+                 "keyword-less arguments)."),
         "note": ("libcst nodes are opaque immutable records; matchers.matches(arg.keyword, m.Name(n)) is an uninterpreted predicate. Each codemod's "
                  "own on_result_found, import edits and the remaining helpers are out of reach and listed as such in the evidence."),
         "design_ref": "DESIGN.md section 4 C16",
@@ -26,7 +27,8 @@ CHECKS = {
                  "_process_file hands the selected file name unchanged to the file context. BOUNDED stand-ins (not counted as proved): filter_files "
                  "(include mode ignores a ':line' suffix, exclude mode never excludes a whole file through a ':line' pattern) and match_files (== the "
                  "set-comprehension specification with defaults when None; sorted, duplicate-free, independent of enumeration order) evaluated natively "
-                 "on generated inputs."),
+                 "on generated inputs; cli.parse_args delivers --path-include/--path-exclude verbatim; write-site frame scan (every write primitive in the "
+                 "package is under an effect contract or on a committed allow-list)."),
         "note": "fnmatch, Path.rglob/is_symlink trusted; symlinked manifests (BaseParser.find_file_locations) and 'every fixable file is fixed' are out of reach.",
         "design_ref": "DESIGN.md section 4 C05",
     },
@@ -34,7 +36,8 @@ CHECKS = {
         "text": ("Mixed. Deductive: codemodder.run applies exactly match_codemods(include, exclude, sast_only = Sonar-issues-json or SARIF given), and "
                  "apply_codemods is a sequential fold over that list (ghost event trace: each codemod once, in order). BOUNDED stand-ins (not counted "
                  "as proved): CodemodRegistry.match_codemods == the reference selection of the statement on generated include/exclude lists over a "
-                 "synthetic and the real registry; CsvListAction; registry order independent of PYTHONHASHSEED."),
+                 "synthetic and the real registry; CsvListAction; cli.parse_args delivers --codemod-include/--codemod-exclude verbatim; registry order "
+                 "independent of PYTHONHASHSEED."),
         "note": "Python's re cannot be given an SMT contract for data-dependent patterns: the wildcard predicate is bounded only. argparse trusted.",
         "design_ref": "DESIGN.md section 4 C17",
     },
@@ -63,7 +66,9 @@ CHECKS = {
         "text": ("Deductive: the context aggregates are keyed frames - add_changesets/add_failures/add_unfixed_findings/add_dependencies/"
                  "process_results/_apply change only the running codemod's key of every aggregate (whole-view postconditions); get_* read one key; "
                  "compile_results[i] is built from key i only; apply_codemods is a sequential fold: ghost trace == A:id1, D:id1, A:id2, D:id2, ... "
-                 "(each codemod's dependency update happens before the next codemod starts); process_dependencies touches only its codemod."),
+                 "(each codemod's dependency update happens before the next codemod starts); process_dependencies touches only its codemod; _apply hands "
+                 "the worker pool exactly its own selection get_files_to_analyze(context, results) (ghost work-list trace: nothing left behind by "
+                 "another codemod filters or extends it); a new context starts with every aggregate empty."),
         "note": ("Restricted claim: read-only inputs shared between codemods (semgrep pre-filter computed once, cached package stores mutated in "
                  "memory, functools.cache on result-file loaders) are listed as undecided dependencies; BaseCodemod.apply is used through its "
                  "dynamic-dispatch contract."),
@@ -114,8 +119,10 @@ CHECKS = {
     "C19": {
         "text": ("Deductive: both regex pipelines' _apply loops against recursive spec functions (same number of lines, line i is the substitution of "
                  "original line i - or the original line when it carries no finding -, one change per altered line numbered i+1 carrying the findings of "
-                 "THAT line), the pipelines' apply (dry-run, diff faithful to what is written, unreadable file handled), XML pipeline apply."),
-        "note": "XML lexical handlers / attribute merge / whole-document preservation: not yet under contract (out of reach in this delivery); re.sub is an uninterpreted pure function.",
+                 "THAT line), the pipelines' apply (dry-run, diff faithful to what is written, unreadable file handled), XML pipeline apply. BOUNDED stand-in "
+                 "(not counted as proved): the SAX re-serialisation (XMLGenerator + lexical handlers) run through the real XMLTransformerPipeline on "
+                 "generated documents; event stream after == event stream before with exactly the requested edit, whitespace-only text aside."),
+        "note": "xml.sax / expat callbacks are library code driven from C: bounded only. re.sub is an uninterpreted pure function.",
         "design_ref": "DESIGN.md section 4 C19",
     },
 
